@@ -14,27 +14,27 @@ UNITS = [
        kind="B", bound="<= 16 vectors per bundle (the harness loop that builds the ghost prefix counts is unwound; the loop of the function itself is closed by a loop contract); flags, vectors and the ghost channel symbolic",
        note=WRAP_NOTE % ("1", "the concatenating decoder")),
 ]
-def core_bound(parts, pv, n, stages):
-    return ("<= 2 vectors, <= %d partition classes, <= %d classification values, classification book of <= 2 dimensions, <= %d partitions inside the decoded range, <= %d cascade stages; "
+def core_bound(parts, pv, n, stages, maxch=2):
+    return ("<= %d vector(s), <= %d partition classes, <= %d classification values, classification book of <= 2 dimensions, <= %d partitions inside the decoded range, <= %d cascade stages; "
             "all loops unwound completely under these bounds; begin/end/grouping (24-bit), every block size 64..8192, stage masks, which stage books exist, "
-            "class words (any entry number up to 2^24, incl. beyond partvals) and end-of-packet at every read symbolic") % (parts, pv, n, stages)
+            "class words (any entry number up to 2^24, incl. beyond partvals) and end-of-packet at every read symbolic") % (maxch, parts, pv, n, stages)
 CORE_ASSUMED = ["callees are body-ful stubs that CHECK their arguments: vorbis_book_decode (any original entry number or -1), the partition decoder (its n floats must lie inside one vector of the bundle), _vorbis_block_alloc (malloc of the requested size, request within the proved precondition of unit blk_alloc)",
                 "the look as res0_look builds it from an info satisfying res0_unpack's postcondition (harness-built): decodemap rows of dim class numbers < parts, partbooks[p] of ilog(secondstages[p]) slots",
                 "alloca requests checked against the stack budget"]
 NOTE01 = "partition decoder of residue formats 0/1 (Vorbis I 8.6.2-8.6.4): the decoded range is clipped to half the block, so every partition handed to the value decoder lies inside its vector; a class word beyond the classification range or a missing class row ends decoding (no table access); class numbers index the stage masks and the book table inside their sizes; class-word table sized for every partition; writes nothing but its own scratch memory"
 NOTE2 = "partition decoder of residue format 2: the decoded range is clipped to ch half blocks, every interleaved partition lies inside the bundle; class word range and class-row checks; stage mask / book table indices in range; an all-'do not decode' bundle reads nothing"
-def core(name, fn, tier, parts, pv, n, mask, stages, timeout):
+def core(name, fn, tier, parts, pv, n, mask, stages, timeout, maxch=2):
     res2 = fn == "res2_inverse"
-    d = ["VERIF_RES_CORE", "H_NAME=h_" + name, "MAXPARTS=%d" % parts, "MAXPV=%d" % pv, "MAXN=%d" % n, "MAXMASK=%d" % mask,
+    d = ["VERIF_RES_CORE", "H_NAME=h_" + name, "MAXPARTS=%d" % parts, "MAXPV=%d" % pv, "MAXN=%d" % n, "MAXMASK=%d" % mask, "VERIF_CORE_MAXCH=%d" % maxch,
          "H_MAX=((vb->pcmend*ch)>>1)" if res2 else "H_MAX=(vb->pcmend>>1)"] + (["H_RES2"] if res2 else [])
     loops = ["%s.%d:9" % (fn, k) for k in range(4 if res2 else 6)]
-    return Unit(name, ["C02", "C01", "C11"], "lib/res0.c", enforce=fn, kind="B", bound=core_bound(parts, pv, n, stages), assumed=CORE_ASSUMED,
+    return Unit(name, ["C02", "C01", "C11"], "lib/res0.c", enforce=fn, kind="B", bound=core_bound(parts, pv, n, stages, maxch), assumed=CORE_ASSUMED,
                 harness="h_res_core.c", entry="h_" + name, defines=d, tier=tier,
                 unwindset=loops + ["build_look.0:9", "build_look.1:9", "build_look.2:9", "build_look.3:9", "ilog_.0:9", "h_%s.0:3" % name],
-                reach=3, timeout=timeout, shards=12, note=NOTE2 if res2 else NOTE01)
+                reach=3, timeout=timeout, note=NOTE2 if res2 else NOTE01)
 UNITS += [
-  core("res_01inverse_b", "_01inverse", "quick", 2, 2, 2, 3, 2, 900),
-  core("res_res2_inverse_b", "res2_inverse", "quick", 2, 2, 2, 3, 2, 900),
+  core("res_01inverse_b", "_01inverse", "thorough", 2, 2, 2, 1, 1, 1800, maxch=1),
+  core("res_res2_inverse_b", "res2_inverse", "thorough", 2, 2, 2, 1, 1, 1800, maxch=1),
   core("res_01inverse_b8", "_01inverse", "thorough", 3, 4, 4, 255, 8, 3600),
   core("res_res2_inverse_b8", "res2_inverse", "thorough", 3, 4, 4, 255, 8, 3600),
 ]
